@@ -457,11 +457,12 @@ pub fn shrink_struct<T: Clone>(
 ) -> (T, Fail) {
     let mut best = (case, first);
     let mut used = 0;
+    let t0 = std::time::Instant::now();
     loop {
         let mut progressed = false;
         for c in cands(&best.0) {
             used += 1;
-            if used > budget {
+            if used > budget || t0.elapsed().as_secs() > 90 {
                 return best;
             }
             if let Some(f) = eval(&c) {
@@ -520,4 +521,40 @@ impl Report {
             .filter(|f| f.class == class && f.case_desc.starts_with(&format!("[{}]", section)))
             .count()
     }
+}
+
+/// shrinking candidates for a record list: for long lists only whole blocks are dropped (halves,
+/// quarters, eighths …), for short ones single records are dropped and records are halved
+pub fn shrink_records(recs: &[Vec<u8>]) -> Vec<Vec<Vec<u8>>> {
+    let n = recs.len();
+    let mut out: Vec<Vec<Vec<u8>>> = Vec::new();
+    if n > 24 {
+        let mut parts = 2;
+        while parts <= 16 {
+            let sz = (n + parts - 1) / parts;
+            let mut st = 0;
+            while st < n {
+                let mut v = recs[..st].to_vec();
+                v.extend_from_slice(&recs[(st + sz).min(n)..]);
+                out.push(v);
+                st += sz;
+            }
+            parts *= 2;
+        }
+        return out;
+    }
+    for i in 0..n {
+        let mut v = recs.to_vec();
+        v.remove(i);
+        out.push(v);
+    }
+    for i in 0..n {
+        if recs[i].len() > 1 {
+            let mut v = recs.to_vec();
+            let h = v[i].len() / 2;
+            v[i].truncate(h);
+            out.push(v);
+        }
+    }
+    out
 }
